@@ -273,6 +273,10 @@ def stream_stored(ctx, res, n):
             ("bad-ct-type", {"method": "xor", "ciphertext": base64.b64encode(b"abc")}), ("bad-ct-type", with_ct(1.5)), ("bad-ct-type", with_ct(True)),
             ("bad-b64", with_ct("A")), ("bad-b64", with_ct("AAAAA")), ("bad-b64", with_ct("QQ=")), ("bad-b64", with_ct("Q")),
             ("bad-b64", {"method": "xor", "ciphertext": "A"}), ("bad-b64", with_ct("é" + good_aes)),
+            # text that is not base64 at all, or base64 with foreign characters appended, embedded or prefixed
+            ("foreign-b64", {"method": "xor", "ciphertext": "!!!!"}), ("foreign-b64", with_ct(good_aes + "!!??")), ("foreign-b64", with_ct("$$$$" + good_aes)),
+            ("foreign-b64", with_ct(good_aes[:12] + "\x00*#~" + good_aes[12:])), ("foreign-b64", with_ct(good_aes[:10] + "\n " + good_aes[10:])),
+            ("foreign-b64", with_ct(good_aes + "\n")), ("foreign-b64", {"method": "xor", "ciphertext": "QUJD QUJD"}), ("foreign-b64", {"method": "xor", "ciphertext": "QUJD-_"}),
             ("short-aes", with_ct("")), ("short-aes", with_ct(base64.b64encode(raw[:31]).decode())), ("short-aes", with_ct(base64.b64encode(raw[:16]).decode())),
             ("unaligned-aes", with_ct(base64.b64encode(raw + b"\x01").decode())), ("unaligned-aes", with_ct(base64.b64encode(raw[:33]).decode())),
             ("not-utf8", {"method": "xor", "ciphertext": base64.b64encode(bytes(b ^ key[i % 32] for i, b in enumerate(b"\xff\xfe\xfd"))).decode()}),
@@ -281,7 +285,6 @@ def stream_stored(ctx, res, n):
         extra = [("plain-str", "hand written"), ("plain-str", ""), ("null", None),
                  ("best-method", {"method": "best", "ciphertext": good_aes}),
                  ("garbage-aes", with_ct(base64.b64encode(bytes(rng.getrandbits(8) for _ in range(48))).decode())),
-                 ("lenient-b64", with_ct(good_aes[:10] + "\n " + good_aes[10:])),
                  ("extra-keys", {"method": "xor", "ciphertext": base64.b64encode(b"abc").decode(), "x": 1})]
         for kind, st in shapes + extra:
             case = {"stream": "stored-malformed", "kind": kind, "stored": st}
